@@ -50,11 +50,14 @@ type State struct {
 	locks   string // SMT term: Array Int Int (0 none, 1 read, 2 write)
 	notes   []string
 	dead    bool
+	freshRefs []string
+	trace   []string
+	curBlock *ssa.BasicBlock
 	specHeap *specInst // non-nil while evaluating a spec function body: heap arrays are formal parameters
 }
 
 func (st *State) clone() *State {
-	n := &State{epoch: st.epoch, allocT: st.allocT, locks: st.locks, specHeap: st.specHeap}
+	n := &State{epoch: st.epoch, allocT: st.allocT, locks: st.locks, specHeap: st.specHeap, curBlock: st.curBlock}
 	n.frames = make([]*Frame, len(st.frames))
 	for i, f := range st.frames {
 		nf := &Frame{fn: f.fn, depth: f.depth, regs: make(map[ssa.Value]*Value, len(f.regs))}
@@ -103,6 +106,8 @@ func (st *State) clone() *State {
 		n.iters[k] = v
 	}
 	n.notes = append([]string(nil), st.notes...)
+	n.freshRefs = append([]string(nil), st.freshRefs...)
+	n.trace = append([]string(nil), st.trace...)
 	return n
 }
 
@@ -493,6 +498,7 @@ func (x *Exec) allocObj(st *State, t types.Type, name string) *Pointer {
 	st.decls = append(st.decls, fmt.Sprintf("(declare-const %s (Array Int Bool))", na))
 	st.assume(fmt.Sprintf("(= %s (store %s %s true))", na, st.allocT, ref))
 	st.allocT = na
+	st.freshRefs = append(st.freshRefs, ref)
 	p := &Pointer{Base: ref, Root: t}
 	x.store(st, p, x.zeroValue(st, t))
 	return p
@@ -508,6 +514,7 @@ func (x *Exec) freshRef(st *State, name string) string {
 	st.decls = append(st.decls, fmt.Sprintf("(declare-const %s (Array Int Bool))", na))
 	st.assume(fmt.Sprintf("(= %s (store %s %s true))", na, st.allocT, ref))
 	st.allocT = na
+	st.freshRefs = append(st.freshRefs, ref)
 	return ref
 }
 
